@@ -15,7 +15,7 @@ func init() {
 		ID: "C16",
 		Explanation: "Static conformance of the engine caller: (R1) every invocation of the derived context's cancel that can run before the caller's wg.Wait() returns lies on a path that first receives from the engine's done channel and only then starts and awaits a timer of conf.exitDelay (timer creation ordered after the done receive); the function-level deferred cancel runs after the wait; " +
 			"(R2) conf.exitDelay is written only by the withExitDelay option and the constructor default, every newEngineConfig site passes withExitDelay(opts.exitDelay), that options field is bound to the --exit-delay flag whose default is the 300ms constant also used as constructor default; the chunking starter copies the configuration without touching the delay; " +
-			"(R3) engine and logger run under the derived context, so they keep listening until that cancel; (R4) done means sent: the sender closes done when its writing goroutine ends (C07.R3 re-evaluated) and every packet.Writer in the repository performs exactly one synchronous write to the layer below before returning (no queue or goroutine between WritePacketData and the wire).",
+			"(R3) engine and logger run under the derived context, so they keep listening until that cancel; (R4) done means sent: the sender closes done when its writing goroutine ends (C07.R3 re-evaluated) and every packet.Writer in the repository performs exactly one synchronous write to the layer below before returning (no queue or goroutine between WritePacketData and the wire); (R5) a late reply is reported: records go to the logger's own output through stateless writers (C08.R3 clauses) and the receive loop stops only for the terminal error class (C20.R3 re-evaluated).",
 		NotDecided:  []string{"that the delay elapses in wall-clock terms", "that a reply arriving within the delay is delivered by kernel and scheduler in time"},
 		Assumptions: []string{"time.After/NewTimer/Sleep wait at least the given duration", "context.WithCancel semantics"},
 		Run:         runC16,
@@ -50,6 +50,24 @@ func runC16(p *Prog, r *Report) {
 	}
 	checkExitDelayProvenance(p, r)
 	checkDoneMeansSent(p, r)
+	// R5: a reply arriving within the delay is reported: the record goes to the logger's own output and the
+	// writers keep no sticky state (C08.R3 logger clauses re-evaluated); the receive loop ends only for a
+	// closed or broken socket (C20.R3 classification re-evaluated), so it is still listening
+	r.Min("C16.R5", 6)
+	{
+		sub := NewReport("C16", "quick")
+		checkLogResults(p, sub, "C16.R5")
+		r.Obs = append(r.Obs, sub.Obs...)
+		sub20 := NewReport("C16", "quick")
+		runC20(p, sub20)
+		for _, o := range sub20.Obs {
+			if o.Rule == "C20.R3" {
+				o2 := *o
+				o2.Rule = "C16.R5"
+				r.Obs = append(r.Obs, &o2)
+			}
+		}
+	}
 }
 
 // checkDoneMeansSent (R4): "the last probe has left" is what the engine's done channel announces.
